@@ -318,6 +318,18 @@ func c12(c *core.Ctx) {
 			y := k.R.Intn(x + 1)
 			a.Attrs[x], a.Attrs[y] = a.Attrs[y], a.Attrs[x]
 		}
+		if len(a.Attrs) > 0 && k.R.Chance(1, 5) { // the same attribute type twice (RFC 5448 allows several AT_KDF), equal or different values
+			d := a.Attrs[k.R.Intn(len(a.Attrs))]
+			if k.R.Bool() {
+				d.Value = append(abs.HB{}, d.Value...)
+				if len(d.Value) > 0 {
+					d.Value[0] ^= 0x55
+				}
+			}
+			pos := k.R.Intn(len(a.Attrs) + 1)
+			a.Attrs = append(a.Attrs[:pos], append([]abs.AKAAttr{d}, a.Attrs[pos:]...)...)
+			k.Count("aka_packets_with_a_repeated_attribute_type", 1)
+		}
 		if k.R.Chance(1, 3) { // an attribute type without a dedicated reader
 			a.Attrs = append(a.Attrs, abs.AKAAttr{Type: uint8(k.R.Pick(4, 12, 14, 22, 129, 135, 200, 255)), Value: k.R.Bytes(4 * k.R.Intn(4))})
 		}
